@@ -144,8 +144,12 @@ def _listener_for(ctx):
             return                  # probes on copies are not the history
         ctx.nevents += 1
         ctx.kinds.append(opname(operation))
-        for m in ctx.monitors:
-            m.on_op(ctx, state, operation)
+        trace, load.SHUFFLE_TRACE[0] = load.SHUFFLE_TRACE[0], None
+        try:
+            for m in ctx.monitors:
+                m.on_op(ctx, state, operation)
+        finally:
+            load.SHUFFLE_TRACE[0] = trace
     return listener
 
 
@@ -171,13 +175,17 @@ def start_hand(cfg, monitors, prop=None):
     load.LISTENERS.append(listener)
     for m in monitors:
         m.on_begin(ctx)
+    ctx.data['shuffle_requests'] = []
+    load.SHUFFLE_TRACE[0] = ctx.data['shuffle_requests']
     try:
         state = gen.build_state(cfg)
     except Exception as exc:     # noqa: BLE001
+        load.SHUFFLE_TRACE[0] = None
         ctx.data['ctor_exc'] = exc
         for m in monitors:
             m.on_ctor_failed(ctx, exc)
         return ctx
+    load.SHUFFLE_TRACE[0] = None
     if ctx.state is None:
         ctx.state = state
     assert ctx.state is state
@@ -200,15 +208,18 @@ def apply_call(ctx, name, args, commentary=None):
         ctx.script.append([name, encode_args(args), commentary])
     for m in ctx.monitors:
         m.on_call(ctx, state, name, args)
+    load.SHUFFLE_TRACE[0] = ctx.data.get('shuffle_requests')
     try:
         if commentary is None:
             result = getattr(state, name)(*args)
         else:
             result = getattr(state, name)(*args, commentary=commentary)
     except Exception as exc:    # noqa: BLE001
+        load.SHUFFLE_TRACE[0] = None
         for m in ctx.monitors:
             m.on_call_failed(ctx, state, name, args, exc)
         raise
+    load.SHUFFLE_TRACE[0] = None
     for m in ctx.monitors:
         m.on_return(ctx, state, name, args, result)
     return result
@@ -269,7 +280,25 @@ def _rigged_plan(s, pol, rng):
     avail = {repr(c) for c in s.get_dealable_cards()}
     ranks = [r for r in RANKS if any(r + x in avail for x in 'cdhs')]
     kind = rng.choice(['sf', 'sf', 'quads', 'flush', 'straight', 'full',
-                       'wheel', 'trips', 'royal', 'quadsA'])
+                       'wheel', 'trips', 'royal', 'quadsA', 'mono', 'mono'])
+    if kind == 'mono':
+        # degenerate holdings: every player's cards are of ONE suit (badugi
+        # one-card hands, lowball flushes, boards nobody connects with);
+        # the board comes from whatever is left
+        pool = {x: [c for c in sorted(avail) if c[1] == x] for x in 'cdhs'}
+        for x in pool:
+            rng.shuffle(pool[x])
+        holes = []
+        off = rng.randrange(4)
+        for i in range(s.player_count):
+            src = pool['cdhs'[(i + off) % 4]]
+            holes.append([src.pop() for _ in range(min(7, len(src)))])
+        used = {c for h in holes for c in h}
+        board = [c for c in sorted(avail) if c not in used]
+        rng.shuffle(board)
+        plan = {'kind': kind, 'board': board[:15], 'holes': holes}
+        pol['_plan'] = plan
+        return plan
     suit = rng.choice('cdhs')
     j = rng.randrange(max(1, len(ranks) - 4))
     run = ranks[j:j + 5]
@@ -364,6 +393,13 @@ def choose(state, avail, rng, pol):
             w = {'passive': 0.3, 'aggressive': 3.0, 'foldy': 0.7,
                  'allin': 4.0}.get(policy, 1.0)
         weights.append(w)
+    fs = pol.get('fold_seats')
+    if fs:
+        fs = {int(k): v for k, v in fs.items()}    # JSON round trip
+    if fs and 'fold' in avail and state.actor_index in fs and \
+            state.street_index is not None and \
+            state.street_index >= fs[state.actor_index]:
+        return 'fold', []
     if pol.get('voluntary_show') and state.street_index is None and \
             rng.random() < pol['voluntary_show']:
         # outside the showdown (forced bets not yet posted, or chips being
@@ -419,6 +455,8 @@ def choose(state, avail, rng, pol):
             k = 0
             while k < len(st) and not st[k]:
                 k += 1
+            if pol.get('unknown_up'):
+                k = len(st)      # the seat's up cards were not recorded either
             if k:
                 args = ['??' * k, i]
     elif op == 'deal_hole':
@@ -985,3 +1023,60 @@ class DiscardProbe(Monitor):
                         f'discarding {what} ({arg!r}) but the operation '
                         f'raises {type(exc).__name__}: {exc}')
                 return
+
+
+class KnownCardsRule(Monitor):
+    """Trace rule on the players' hands: a card a player holds and whose
+    identity is known stays in his hand, known, until he discards it in a
+    draw, mucks, folds or is killed.  (Showing part of a hand at one of the
+    several showdowns of an all-in run-out must not turn a card shown
+    earlier back into an unknown one -- and so free it to be dealt again;
+    at the FINAL showdown the cards not tabled are given up, by design.)"""
+
+    name = 'known-cards'
+
+    def on_begin(self, ctx):
+        self.prev = None
+
+    def _known(self, s):
+        return [[repr(c) for c in s.hole_cards[i] if c]
+                if s.statuses[i] else None for i in s.player_indices]
+
+    def _last(self, s):
+        return s.street_index is None or \
+            s.street_index == len(s.streets) - 1
+
+    def on_created(self, ctx, s):
+        self.prev = self._known(s)
+        self.was_last = self._last(s)
+
+    def on_op(self, ctx, s, operation):
+        now = self._known(s)
+        prev, self.prev = self.prev, now
+        was_last, self.was_last = self.was_last, self._last(s)
+        if prev is None or len(prev) != len(now):
+            return
+        gone_ok = set()
+        kind = type(operation).__name__
+        if kind == 'StandingPatOrDiscarding':
+            gone_ok = {repr(c) for c in operation.cards}
+        elif kind == 'HoleCardsShowingOrMucking' and was_last:
+            # at the final showdown (and after the hand) the cards a player
+            # does not table are given up: documented behaviour
+            return
+        for i, (a, b) in enumerate(zip(prev, now)):
+            if a is None or b is None:
+                continue
+            ctx.counters['known_hands_followed'] += 1
+            left = list(b)
+            for c in a:
+                if c in left:
+                    left.remove(c)
+                elif c not in gone_ok:
+                    ctx.violate(
+                        f'op #{ctx.nevents} {type(operation).__name__}: '
+                        f'player {i} held the known card {c} (hand {a}) and '
+                        f'is still in, but his hand is now '
+                        f'{[repr(x) for x in s.hole_cards[i]]}: a known '
+                        f'card left a live hand without a discard or muck')
+                    return
